@@ -11,3 +11,206 @@ Qed.
 
 Lemma norm_int : forall z, norm (VInt z) = VInt z.
 Proof. reflexivity. Qed.
+
+(* the key stored by the table is never an integral float *)
+Lemma norm_not_integral_float : forall v b, norm v = VFlt b -> float_to_int b = None.
+Proof.
+  intros v b. unfold norm. destruct (toIntNoString v) eqn:E; [discriminate|].
+  intros ->. exact E.
+Qed.
+
+(* ---- structural ("constructor-level") equality: what Equals is meant to compute ---- *)
+Definition raw_eq (v w : value) : bool :=
+  match v, w with
+  | VNil, VNil => true
+  | VBool a, VBool b => Bool.eqb a b
+  | VInt a, VInt b => Z.eqb a b
+  | VFlt a, VFlt b => feq a b
+  | VStr a, VStr b => list_eqb a b
+  | VRef k p, VRef k' p' => N.eqb k k' && N.eqb p p'
+  | VClo _ c, VClo _ c' => N.eqb c c'
+  | _, _ => false
+  end.
+
+Lemma list_eqb_eq : forall a b, list_eqb a b = true <-> a = b.
+Proof.
+  induction a as [|x a IH]; destruct b as [|y b]; cbn; split; try congruence; try discriminate.
+  - intros H. apply andb_true_iff in H as [H1 H2]. apply N.eqb_eq in H1. apply IH in H2. congruence.
+  - intros H. inversion H; subst. rewrite N.eqb_refl. cbn. apply IH. reflexivity.
+Qed.
+
+Lemma pack_bytes_bound : forall s, forallb (fun x => N.ltb x 256) s = true ->
+  (pack_bytes s < 256 ^ N.of_nat (length s))%N.
+Proof.
+  induction s as [|b r IH]; intros H.
+  - cbn. lia.
+  - cbn [forallb] in H. apply andb_true_iff in H as [Hb Hr]. apply N.ltb_lt in Hb.
+    specialize (IH Hr). cbn [pack_bytes length].
+    rewrite Nat2N.inj_succ, N.pow_succ_r'. lia.
+Qed.
+
+Lemma pack_bytes_inj : forall s s', length s = length s' ->
+  forallb (fun x => N.ltb x 256) s = true -> forallb (fun x => N.ltb x 256) s' = true ->
+  pack_bytes s = pack_bytes s' -> s = s'.
+Proof.
+  induction s as [|b r IH]; destruct s' as [|b' r']; cbn [length]; intros HL H H' E; try discriminate; [reflexivity|].
+  cbn [forallb] in H, H'. apply andb_true_iff in H as [Hb Hr]. apply andb_true_iff in H' as [Hb' Hr'].
+  apply N.ltb_lt in Hb. apply N.ltb_lt in Hb'. cbn [pack_bytes] in E.
+  assert (b = b' /\ pack_bytes r = pack_bytes r') as [-> E'] by lia.
+  f_equal. apply IH; auto.
+Qed.
+
+Lemma pow256_7 : forall n, n <= 7 -> (256 ^ N.of_nat n <= two56)%N.
+Proof.
+  intros n H. change two56 with (256 ^ 7)%N. apply N.pow_le_mono_r; lia.
+Qed.
+
+Lemma str_scalar_inj : forall s s',
+  forallb (fun x => N.ltb x 256) s = true -> forallb (fun x => N.ltb x 256) s' = true ->
+  length s <= 7 -> length s' <= 7 ->
+  (pack_bytes s + two56 * N.of_nat (length s) = pack_bytes s' + two56 * N.of_nat (length s'))%N -> s = s'.
+Proof.
+  intros s s' W W' L L' E.
+  pose proof (pack_bytes_bound s W) as B. pose proof (pack_bytes_bound s' W') as B'.
+  pose proof (pow256_7 _ L) as P. pose proof (pow256_7 _ L') as P'.
+  assert (N.of_nat (length s) = N.of_nat (length s') /\ pack_bytes s = pack_bytes s') as [EL EP].
+  { unfold two56 in *. nia. }
+  apply pack_bytes_inj; auto. lia.
+Qed.
+
+Lemma int_scalar_inj : forall a b,
+  wf (VInt a) = true -> wf (VInt b) = true ->
+  Z.to_N (a mod Z.of_N two64) = Z.to_N (b mod Z.of_N two64) -> a = b.
+Proof.
+  intros a b Wa Wb E. cbn [wf] in Wa, Wb.
+  apply andb_true_iff in Wa as [A1 A2]. apply andb_true_iff in Wb as [B1 B2].
+  apply Z.leb_le in A1, B1. apply Z.ltb_lt in A2, B2.
+  change (Z.of_N two63) with 9223372036854775808%Z in *.
+  change (Z.of_N two64) with 18446744073709551616%Z in *.
+  revert E. generalize (Z.mod_pos_bound a 18446744073709551616 eq_refl).
+  generalize (Z.mod_pos_bound b 18446744073709551616 eq_refl).
+  rewrite (Z.mod_eq a), (Z.mod_eq b) by lia.
+  assert (Da : (a / 18446744073709551616 = 0 \/ a / 18446744073709551616 = -1)%Z).
+  { destruct (Z_lt_le_dec a 0).
+    - right. symmetry. apply Z.div_unique with (r := (a + 18446744073709551616)%Z); lia.
+    - left. apply Z.div_small. lia. }
+  assert (Db : (b / 18446744073709551616 = 0 \/ b / 18446744073709551616 = -1)%Z).
+  { destruct (Z_lt_le_dec b 0).
+    - right. symmetry. apply Z.div_unique with (r := (b + 18446744073709551616)%Z); lia.
+    - left. apply Z.div_small. lia. }
+  intros. lia.
+Qed.
+
+Lemma equals_int : forall a b, wf (VInt a) = true -> wf (VInt b) = true -> equals (VInt a) (VInt b) = Z.eqb a b.
+Proof.
+  intros a b Wv Ww. unfold equals. cbn [tag negb N.eqb]. cbn -[Z.modulo Z.to_N two64].
+  destruct (Z.eqb_spec a b) as [->|NE].
+  - rewrite N.eqb_refl. reflexivity.
+  - destruct (N.eqb_spec (Z.to_N (a mod Z.of_N two64)) (Z.to_N (b mod Z.of_N two64))) as [E|_]; [|reflexivity].
+    exfalso. apply NE. apply int_scalar_inj; auto.
+Qed.
+
+Lemma equals_str : forall a b, wf (VStr a) = true -> wf (VStr b) = true -> equals (VStr a) (VStr b) = list_eqb a b.
+Proof.
+  intros a b Wv Ww. unfold equals. cbn [tag negb N.eqb]. cbn -[pack_bytes two56 N.mul N.add Nat.leb list_eqb].
+  cbn [wf] in Wv, Ww.
+  destruct (list_eqb a b) eqn:EL.
+  - apply list_eqb_eq in EL. subst b. rewrite N.eqb_refl. cbn [negb].
+    destruct (negb _); [reflexivity|]. apply list_eqb_eq. reflexivity.
+  - destruct (N.eqb_spec (if Nat.leb (length a) 7 then (pack_bytes a + two56 * N.of_nat (length a))%N else 0%N)
+                         (if Nat.leb (length b) 7 then (pack_bytes b + two56 * N.of_nat (length b))%N else 0%N)) as [E|_];
+      [|reflexivity].
+    cbn [negb].
+    destruct (Nat.leb (length a) 7) eqn:La, (Nat.leb (length b) 7) eqn:Lb.
+    + apply Nat.leb_le in La, Lb. apply str_scalar_inj in E; auto. subst b.
+      assert (list_eqb a a = true) by (apply list_eqb_eq; reflexivity). congruence.
+    + rewrite E. cbn. exact EL.
+    + rewrite <- E. destruct (N.eqb_spec (pack_bytes a + two56 * N.of_nat (length a)) 0); cbn; [exact EL|].
+      exfalso. apply n. exact E.
+    + cbn. exact EL.
+Qed.
+
+Lemma equals_ref : forall k p k' p', equals (VRef k p) (VRef k' p') = N.eqb k k' && N.eqb p p'.
+Proof.
+  intros. unfold equals. cbn [tag]. cbn [scalar N.eqb negb iface_eq].
+  destruct (N.eqb_spec (6 + k) (6 + k')) as [E|NE]; cbn [negb].
+  - assert (k = k') by lia. subst. reflexivity.
+  - destruct (N.eqb_spec k k'); [subst; lia|]. reflexivity.
+Qed.
+
+Lemma equals_tag : forall v w, tag v <> tag w -> equals v w = false.
+Proof. intros v w H. unfold equals. destruct (N.eqb_spec (tag v) (tag w)); [contradiction|reflexivity]. Qed.
+
+(* Value.Equals computes structural equality on every pair of constructor-built values
+   (short / long / empty strings, ints, floats incl. NaN and +-0, booleans, pointers, closures). *)
+Theorem equals_agrees : forall v w, wf v = true -> wf w = true -> equals v w = raw_eq v w.
+Proof.
+  intros v w Wv Ww.
+  destruct v, w; cbn [raw_eq];
+    try (apply equals_tag; cbn [tag]; lia);
+    try (apply equals_int; assumption); try (apply equals_str; assumption); try apply equals_ref;
+    try reflexivity.
+  destruct b, b0; reflexivity.
+Qed.
+
+(* raw equality is an equivalence on non-NaN values *)
+Lemma raw_eq_refl : forall v, is_nan v = false -> raw_eq v v = true.
+Proof.
+  destruct v; cbn; intros H; auto using Bool.eqb_reflx, Z.eqb_refl, N.eqb_refl.
+  - unfold feq. rewrite H, N.eqb_refl. reflexivity.
+  - apply list_eqb_eq. reflexivity.
+  - rewrite !N.eqb_refl. reflexivity.
+Qed.
+
+Lemma feq_sym : forall a b, feq a b = feq b a.
+Proof. intros. unfold feq. rewrite (N.eqb_sym a b). destruct (f_isnan a), (f_isnan b), (N.eqb b a), (f_iszero a), (f_iszero b); reflexivity. Qed.
+
+Lemma feq_trans : forall a b c, feq a b = true -> feq b c = true -> feq a c = true.
+Proof.
+  unfold feq. intros a b c H1 H2.
+  destruct (f_isnan a), (f_isnan b), (f_isnan c); cbn in *; try discriminate.
+  apply orb_true_iff in H1. apply orb_true_iff in H2. apply orb_true_iff.
+  destruct H1 as [H1|H1], H2 as [H2|H2].
+  - apply N.eqb_eq in H1, H2. left. apply N.eqb_eq. congruence.
+  - apply N.eqb_eq in H1. subst. right. exact H2.
+  - apply N.eqb_eq in H2. subst. right. exact H1.
+  - right. apply andb_true_iff in H1 as [? ?]. apply andb_true_iff in H2 as [? ?]. apply andb_true_iff. auto.
+Qed.
+
+Lemma raw_eq_sym : forall v w, raw_eq v w = raw_eq w v.
+Proof.
+  destruct v, w; cbn; auto using feq_sym.
+  - destruct b, b0; reflexivity.
+  - apply Z.eqb_sym.
+  - destruct (list_eqb s s0) eqn:E, (list_eqb s0 s) eqn:E'; auto.
+    + apply list_eqb_eq in E. subst. assert (list_eqb s0 s0 = true) by (apply list_eqb_eq; auto). congruence.
+    + apply list_eqb_eq in E'. subst. assert (list_eqb s s = true) by (apply list_eqb_eq; auto). congruence.
+  - rewrite (N.eqb_sym kind kind0), (N.eqb_sym ptr ptr0). reflexivity.
+  - apply N.eqb_sym.
+Qed.
+
+Lemma raw_eq_trans : forall a b c, raw_eq a b = true -> raw_eq b c = true -> raw_eq a c = true.
+Proof.
+  destruct a, b, c; cbn; try discriminate; auto.
+  - destruct b, b0, b1; auto.
+  - intros H1 H2. apply Z.eqb_eq in H1, H2. apply Z.eqb_eq. congruence.
+  - apply feq_trans.
+  - intros H1 H2. apply list_eqb_eq in H1, H2. apply list_eqb_eq. congruence.
+  - intros H1 H2. apply andb_true_iff in H1 as [A B]. apply andb_true_iff in H2 as [C D].
+    apply N.eqb_eq in A, B, C, D. subst. rewrite !N.eqb_refl. reflexivity.
+  - intros H1 H2. apply N.eqb_eq in H1, H2. apply N.eqb_eq. congruence.
+Qed.
+
+(* Lua equality of two values is raw equality of the normalised keys whenever at most one of
+   them is a float (the float/float case needs injectivity of the binary64 decoding and is
+   not closed here — see notes/C03.md) *)
+Theorem key_normalisation_partial : forall v w,
+  (forall a b, v = VFlt a -> w = VFlt b -> False) ->
+  raw_eq (norm v) (norm w) = lua_eq v w.
+Proof.
+  intros v w NF.
+  destruct v as [|a|a|a|a|k p|p c], w as [|b|b|b|b|k' p'|p' c']; try reflexivity;
+    try (unfold norm; cbn [toIntNoString]; destruct (float_to_int _); reflexivity).
+  - unfold norm. cbn [toIntNoString]. destruct (float_to_int b) eqn:E; cbn; [apply Z.eqb_sym|reflexivity].
+  - exfalso. eapply NF; reflexivity.
+Qed.
